@@ -72,6 +72,8 @@ FROM_ICAL_TEXTS = [
     "BEGIN:VEVENT\r\nuid:p2\r\ndtstart:20200310T100000Z\r\nX-b:1\r\nX-A:2\r\nCOMMENT:one\r\nCOMMENT:two\r\n"
     "BEGIN:VALARM\r\nTRIGGER:-PT15M\r\nACTION:DISPLAY\r\nEND:VALARM\r\nEND:VEVENT\r\n",
     "BEGIN:VTODO\r\nDUE;VALUE=DATE:20200312\r\nATTENDEE;CN=\"A, B\";ROLE=CHAIR:mailto:a@example.com\r\nEND:VTODO\r\n",
+    "BEGIN:VEVENT\r\nUID:p5\r\nDTSTART;TZID=UTC:20200310T100000Z\r\nDTEND;TZID=UTC:20200310T110000\r\n"
+    "RDATE;TZID=UTC:20200311T100000Z\r\nEND:VEVENT\r\n",
     "BEGIN:X-THING\r\nX-PROP;X-PAR=1;A-PAR=2:value\r\nBEGIN:X-INNER\r\nEND:X-INNER\r\nEND:X-THING\r\n",
     "BEGIN:VTIMEZONE\r\nTZID:Sim/Noise\r\nBEGIN:STANDARD\r\nDTSTART:19700101T000000\r\nTZOFFSETFROM:+0100\r\n"
     "TZOFFSETTO:+0100\r\nEND:STANDARD\r\nEND:VTIMEZONE\r\n",
@@ -91,6 +93,8 @@ PARAM_MENU = [["language", ["s", "de"]], ["ALTREP", ["s", "http://example.com/a,
               ["DELEGATED-TO", ["list", [["s", "mailto:c@x.org"], ["s", "mailto:a@x.org"], ["s", "mailto:c@x.org"],
                                          ["s", "mailto:b@x.org"], ["s", "mailto:d@x.org"]]]],
               ["x-twice", ["list", [["s", "k"], ["s", "j"], ["s", "k"]]]],
+              # what files written by other producers carry: an explicit TZID=UTC next to a UTC value
+              ["TZID", ["s", "UTC"]], ["tzid", ["s", "UTC"]],
               ["A-FIRST", ["s", "1"]], ["z-last", ["s", "2"]], ["RELATED", ["s", "END"]],
               ["X-SEAT-1", ["s", "a"]], ["X-SEAT-01", ["s", "b"]], ["X-SEAT-10", ["s", "c"]], ["x-seat-2", ["s", "d"]]]
 
